@@ -19,8 +19,11 @@ import time
 import traceback
 
 ROOT = os.path.dirname(os.path.dirname(os.path.abspath(__file__)))
-EVIDENCE_DIR = os.path.join(ROOT, "evidence")
-REPLAY_DIR = os.path.join(ROOT, "replays")
+# VERIF_OUT redirects evidence and replay files (used when the checks are run against a mutated
+# scratch copy of the library, so that the committed evidence of /repo is not overwritten)
+_OUT = os.environ.get("VERIF_OUT") or ROOT
+EVIDENCE_DIR = os.path.join(_OUT, "evidence")
+REPLAY_DIR = os.path.join(_OUT, "replays")
 KNOWN_FILE = os.path.join(ROOT, "known_findings.json")
 MAX_SAMPLES = 6
 MAX_REPLAYS = 12
